@@ -49,7 +49,29 @@ type Node struct {
 	Kids []any
 }
 
-func (n *Node) String() string { return fmt.Sprintf("N%d%v", n.Alt, n.Kids) }
+func (n *Node) String() string { return n.str(0) }
+
+// str renders at most six levels (a runaway parser builds trees tens of thousands of levels deep).
+func (n *Node) str(depth int) string {
+	if n == nil {
+		return "nil"
+	}
+	if depth > 6 {
+		return fmt.Sprintf("N%d[...]", n.Alt)
+	}
+	s := fmt.Sprintf("N%d[", n.Alt)
+	for i, k := range n.Kids {
+		if i > 0 {
+			s += " "
+		}
+		if kn, ok := k.(*Node); ok {
+			s += kn.str(depth + 1)
+		} else {
+			s += fmt.Sprint(k)
+		}
+	}
+	return s + "]"
+}
 
 // Event is one entry of a parser run's log.
 type Event struct {
@@ -63,7 +85,7 @@ func (e Event) String() string {
 	if e.Kind == "scan" {
 		return fmt.Sprintf("scan(%d)", e.N)
 	}
-	return fmt.Sprintf("act%d%v%s", e.N, e.Args, e.Ctx)
+	return "act" + (&Node{Alt: e.N, Kids: e.Args}).str(0)[1:] + e.Ctx
 }
 
 // Recorder is the value stored in Parser.Context; actions receive it as $Context.
@@ -75,7 +97,11 @@ type Recorder struct {
 	Yield    func() // scheduler yield point (nil = none)
 	Injected error
 	Name     string
+	MaxActs  int // action-call budget (0 = 3000): a parser that keeps reducing without reading input is cut off
 }
+
+// BudgetExceeded is the panic value used to stop a run that exceeds its scan or action budget (non-termination).
+type BudgetExceeded struct{}
 
 // InjectedError is returned by the FailAt-th action.
 type InjectedError struct{ Who *Recorder }
@@ -108,6 +134,9 @@ func A(c any, alt int, args ...any) (any, error) {
 	}
 	rec.Log = append(rec.Log, Event{Kind: "act", N: alt, Args: conv, Ctx: ctx})
 	rec.acts++
+	if max := rec.MaxActs; (max == 0 && rec.acts > 3000) || (max > 0 && rec.acts > max) {
+		panic(BudgetExceeded{})
+	}
 	if rec.Yield != nil {
 		rec.Yield()
 	}
